@@ -50,7 +50,7 @@ def load_known() -> dict:
 
 def write_evidence(prop: str, tier: str, seed: int, coverage: dict, wall: float, violations: int,
                    assumptions: list[str]) -> None:
-    EVIDENCE.mkdir(exist_ok=True)
+    EVIDENCE.mkdir(parents=True, exist_ok=True)
     if coverage.get('discharged', 1) < 1 or coverage.get('obligations', 1) < 1:
         # the proof did not build on this tree: no obligation was discharged.  The evidence then only carries the
         # exploration-style counts (the schema asks for at least one discharged obligation at level 'proof')
@@ -66,7 +66,7 @@ def write_evidence(prop: str, tier: str, seed: int, coverage: dict, wall: float,
 
 
 def write_replay(prop: str, seed: int, payload: dict) -> Path:
-    REPLAYS.mkdir(exist_ok=True)
+    REPLAYS.mkdir(parents=True, exist_ok=True)
     n = 0
     while True:
         p = REPLAYS / f'{prop}-{seed}-{n}.json'
